@@ -81,11 +81,10 @@ def run(prog):
                     recv = strip(cs.args[0])
                     if wl_row(cs.args[0], fn):
                         eff.append(("watch", show(cs.args[1])[:20], cs.line))
-                    elif isinstance(recv, tuple) and len(recv) == 2 and isinstance(recv[1], int) and fn.local_name(recv[1]) == "implied":
-                        eff.append(("unit", "", cs.line))
+                    elif isinstance(recv, tuple) and len(recv) == 2 and isinstance(recv[1], int):
+                        eff.append(("unit", "", cs.line))   # a plain local list: the queue of initial units
                 elif nm in ("extend", "extend_from_slice", "append") and cs.args and \
-                        (fn.local_name(strip(cs.args[0])[1]) if isinstance(strip(cs.args[0]), tuple) and len(strip(cs.args[0])) == 2
-                         and isinstance(strip(cs.args[0])[1], int) else None) == "implied":
+                        isinstance(strip(cs.args[0]), tuple) and len(strip(cs.args[0])) == 2 and isinstance(strip(cs.args[0])[1], int):
                     src = show(cs.args[1])
                     if "first(" in src or "get(" in src or "iter().take(1" in src:
                         if n >= 1:
